@@ -42,6 +42,15 @@ extern "C"
     struct SItem *c01_c_slist_pop_first_entry(struct slist_head *h);
     int c01_c_slist_in(struct slist_head *h, struct slist_head *node);
     int c01_c_hlist_entries(struct hlist_head *h, int *out, int max);
+    /* C01_idioms.inc expanded by the C compiler */
+    int c01_c_walk_dl_entry(struct dlist_head *h, int cond, int stop, int skip, int *out, int max, int *else_ran);
+    int c01_c_walk_dl_entry_rev(struct dlist_head *h, int cond, int stop, int skip, int *out, int max, int *else_ran);
+    int c01_c_walk_dl_entry_safe(struct dlist_head *h, int cond, int stop, int skip, int *out, int max, int *else_ran);
+    int c01_c_walk_dl_raw(struct dlist_head *h, int cond, int stop, int skip, int *out, int max, int *else_ran);
+    int c01_c_walk_dl_raw_safe(struct dlist_head *h, int cond, int stop, int skip, int *out, int max, int *else_ran);
+    int c01_c_remove_first_dl(struct dlist_head *h, int id);
+    int c01_c_walk_sl_entry(struct slist_head *h, int cond, int stop, int skip, int *out, int max, int *else_ran);
+    int c01_c_walk_hl_entry(struct hlist_head *h, int cond, int stop, int skip, int *out, int max, int *else_ran);
 #ifdef __cplusplus
 }
 #endif
